@@ -284,6 +284,6 @@ package argmapper
 //@   loop 3 invariant vsP7(result, typ, i)
 //@   loop 3 invariant eligible(typ, i) && sf.Type == fieldType(typ, i) && tag == ftag(typ, i) && tag != "" && name == ite(splitAt(tag, ",", 0) != "", splitAt(tag, ",", 0), fieldName(typ, i))
 //@   loop 3 invariant options != nil && fresh(options) && len(parts) == splitLen(tag, ",") && fresh(parts) && forall(j, int, imp(0 <= j && j < len(parts), parts[j] == splitAt(tag, ",", j)))
-//@   loop 3 invariant forall(j, int, imp(1 <= j && j < 1 + idx3, has(options, optKey(parts[j]))))
-//@   loop 3 invariant forall(k, string, imp(forall(j, int, imp(1 <= j && j < 1 + idx3, optKey(parts[j]) != k)), !has(options, k)))
-//@   loop 3 invariant forall(j, int, imp(1 <= j && j < 1 + idx3 && forall(jj, int, imp(j < jj && jj < 1 + idx3, optKey(parts[jj]) != optKey(parts[j]))), options[optKey(parts[j])] == optVal(parts[j])))
+//@   loop 3 invariant forall(j, int, imp(1 <= j && j < 1 + idx3, has(options, optKey(splitAt(tag, ",", j)))))
+//@   loop 3 invariant forall(k, string, imp(forall(j, int, imp(1 <= j && j < 1 + idx3, optKey(splitAt(tag, ",", j)) != k)), !has(options, k)))
+//@   loop 3 invariant forall(j, int, imp(1 <= j && j < 1 + idx3 && forall(jj, int, imp(j < jj && jj < 1 + idx3, optKey(splitAt(tag, ",", jj)) != optKey(splitAt(tag, ",", j)))), options[optKey(splitAt(tag, ",", j))] == optVal(splitAt(tag, ",", j))))
